@@ -1,6 +1,7 @@
 package main
 
 import (
+	"go/token"
 	"fmt"
 	"go/types"
 	"sort"
@@ -230,27 +231,27 @@ func (fr *Frame) call(st *State, v ssa.Value, cc *ssa.CallCommon, in ssa.Instruc
 				}
 			}
 		}
-		if p, ok := cc.Value.(*ssa.Parameter); ok && fr.depth == 0 {
+		if pn, ok := callbackName(cc.Value); ok && fr.depth == 0 {
 			// a callback passed in by the caller: it may do anything to the heap (an input of the
 			// function, not an unknown of the analysis); its calls and its last result are logged
-			if fr.contract != nil && fr.contract.PureCallbacks[p.Name()] {
-				vc.assume("callback parameter " + p.Name() + " has no effect on the heap (purecallback)")
+			if fr.contract != nil && fr.contract.PureCallbacks[pn] {
+				vc.assume("callback parameter " + pn + " has no effect on the heap (purecallback)")
 			} else {
-				vc.note("%s: callback parameter %s: arbitrary effect on the heap, calls logged", fr.pos(in.Pos()), p.Name())
+				vc.note("%s: callback parameter %s: arbitrary effect on the heap, calls logged", fr.pos(in.Pos()), pn)
 				vc.havocAll(st)
 			}
 			rs, err := freshResults(st, false)
 			if err != nil {
 				return fr.unsupportedErr(in, err)
 			}
-			ck := "fncalls!" + p.Name()
+			ck := "fncalls!" + pn
 			cur, ok := st.ghost[ck]
 			if !ok {
-				cur = vc.fnCallsInit(p.Name())
+				cur = vc.fnCallsInit(pn)
 			}
 			st.ghost[ck] = vc.Define("fncalls", Add(cur, IntLit(1)))
 			if len(rs) == 1 {
-				st.ghost["fnret!"+p.Name()] = rs[0]
+				st.ghost["fnret!"+pn] = rs[0]
 			}
 			setResults(rs)
 			return nil
@@ -335,35 +336,61 @@ func (fr *Frame) callSiteChecks(st *State, cc *ssa.CallCommon, args []Term, in s
 			sig = callee.Fn.(*ssa.Function).Signature
 		case *ssa.Builtin:
 			return
-		case *ssa.Parameter:
-			// a call through a function-typed parameter (a callback): addressed by the parameter's name
-			fs, ok := U(callee.Type()).(*types.Signature)
+		default:
+			// a call through a function-typed parameter or captured variable (a callback):
+			// addressed by that name
+			cb, ok := callbackName(cc.Value)
 			if !ok {
 				return
 			}
-			name = callee.Name()
+			fs, ok := U(cc.Value.Type()).(*types.Signature)
+			if !ok {
+				return
+			}
+			name = cb
 			sig = fs
-		default:
-			return
 		}
 		all = args
 	}
-	matched := false
+	// a site is addressed by the callee's name or, to tell errors.New from reflect.New, by
+	// <package name>.<name>; each way of addressing counts its own ordinals
+	qname := ""
+	if f, ok := cc.Value.(*ssa.Function); ok && f.Pkg != nil && f.Signature.Recv() == nil {
+		qname = f.Pkg.Pkg.Name() + "." + name
+	}
+	matched, qmatched := false, false
 	for _, cs := range fr.contract.CallSites {
 		if cs.Callee == name {
 			matched = true
 		}
+		if qname != "" && cs.Callee == qname {
+			qmatched = true
+		}
 	}
-	if !matched {
+	if !matched && !qmatched {
 		return
 	}
-	n := vc.ordinal("cs:" + fr.path + name)
+	n, qn := 0, 0
+	if matched {
+		n = vc.ordinal("cs:" + fr.path + name)
+	}
+	if qmatched {
+		qn = vc.ordinal("cs:" + fr.path + qname)
+	}
 	names, tys := sigNames(sig, recvT)
 	if len(names) != len(all) {
 		return
 	}
 	for _, cs := range fr.contract.CallSites {
-		if cs.Callee != name || (cs.Ord != 0 && cs.Ord != n) {
+		n, name := n, name
+		switch {
+		case matched && cs.Callee == name:
+		case qmatched && cs.Callee == qname:
+			n, name = qn, qname
+		default:
+			continue
+		}
+		if cs.Ord != 0 && cs.Ord != n {
 			continue
 		}
 		env := fr.baseEnv(st)
@@ -1944,4 +1971,26 @@ func (vc *VC) modifiedSorts(env *SpecEnv, c *FuncContract) []Sort {
 		res = append(res, Sort(s))
 	}
 	return res
+}
+
+// callbackName: the name under which a call through a function value is logged: a function-typed
+// parameter, or a function-typed variable captured by a closure under contract.
+func callbackName(v ssa.Value) (string, bool) {
+	switch x := v.(type) {
+	case *ssa.Parameter:
+		if _, ok := U(x.Type()).(*types.Signature); ok {
+			return x.Name(), true
+		}
+	case *ssa.FreeVar:
+		if _, ok := U(x.Type()).(*types.Signature); ok {
+			return x.Name(), true
+		}
+	case *ssa.UnOp:
+		if fv, ok := x.X.(*ssa.FreeVar); ok && x.Op == token.MUL {
+			if _, ok := U(x.Type()).(*types.Signature); ok {
+				return fv.Name(), true
+			}
+		}
+	}
+	return "", false
 }
